@@ -2,6 +2,7 @@
 import Bebop.Text.Parser
 import Bebop.Text.Grammar
 import Bebop.Text.Dump
+import Bebop.Text.Validate
 import Driver.Gen
 
 open Bebop.Text
@@ -55,6 +56,30 @@ def step (toks : List String) : String :=
       | some f => "ok " ++ hexStr text ++ " " ++ dumpFile f
       | none => "bad-src " ++ hexStr text
     | _, _ => "bad-op gen"
+  | ["geninvalid", seed, size, cls] =>
+    match seed.toNat?, size.toNat?, cls.toNat? with
+    | some seed, some size, some ci =>
+      let clsName := Gen.classes.getD ci "?"
+      let r := Gen.run seed false (do
+        let src ← Gen.genFile size false
+        Gen.inject clsName src)
+      match r with
+      | some src => "ok " ++ hexStr (print (Gen.layoutOf seed) src) ++ " " ++ clsName
+      | none => "na " ++ clsName
+    | _, _, _ => "bad-op geninvalid"
+  | ["validate", h] =>
+    match unhex h with
+    | some bs =>
+      match readFile bs false with
+      | .ok f =>
+        match validate f with
+        | .ok => "accept"
+        | .err why => "reject-validate " ++ why.replace " " "_"
+      | .err => "reject-parse"
+      | .panic => "panic"
+      | .fuel => "fuel"
+      | .declined => "declined"
+    | none => "bad-op validate"
   | _ => "bad-op text " ++ String.intercalate " " toks
 
 end Driver.Text
